@@ -20,7 +20,7 @@ ASSUMPTIONS = ['bitwise agreement of two floating-point evaluation paths is a pr
                'default high_low thresholds are the channel ranges (C08)']
 BUDGET = {
     'quick': dict(examples=4800, time_s=300),
-    'thorough': dict(examples=300000, time_s=2400),
+    'thorough': dict(examples=300000, time_s=2400, fuzz=dict(workers=8, runs=6000, max_s=300)),
 }
 
 
@@ -42,7 +42,7 @@ def _case(draw):
             pne.append('0,0')
     spec['pne'] = pne
     spec['png'] = [draw(st.one_of(st.none(), st.floats(0.1, 50.0).map(repr))) for _ in range(D)]
-    rows = draw(st.permutations(list(range(n))))
+    rows = [int(i) for i in np.random.Generator(np.random.PCG64(draw(st.integers(0, 2 ** 16)))).permutation(n)]   # a drawn seed decides the rows
     specials = []
     at_limits = {}
     for j in range(D):
